@@ -133,28 +133,45 @@ def check(run: Run) -> None:
         run.ob("U4", f"total:{b}")
         if Dim({b: 1}) not in seen.values():
             run.violate("U4", f"{DIMS}:_si_conversions:missing:{b}", dm, table, f"the SI base dimension `{b}` has no entry: its factor silently becomes 1")
-    h = Fn(w, DIMS, "dimension_to_si_unit")
-    run.ob("U4", "product-shape")
-    okp = False
-    for lp in [n for n in h.cfg.stmt_nodes() if n.kind == "for"]:
-        it = lp.ast.iter
-        tg = lp.ast.target
-        sl = h.slice(lp, it)
-        if not (isinstance(it, ast.Call) and isinstance(it.func, ast.Attribute) and it.func.attr == "items" and "dimsys_SI.get_dimensional_dependencies" in sl.calls
-                and "dimension" in sl.params and isinstance(tg, ast.Tuple) and len(tg.elts) == 2 and all(isinstance(e, ast.Name) for e in tg.elts)):
-            continue
-        dname, nname = tg.elts[0].id, tg.elts[1].id
-        for s in lp.ast.body:
-            if isinstance(s, ast.AugAssign) and isinstance(s.op, ast.Mult) and isinstance(s.value, ast.BinOp) and isinstance(s.value.op, ast.Pow) \
-                    and dotted(s.value.right) == nname and len(lp.ast.body) == 1:
-                base = s.value.left
-                if (isinstance(base, ast.Call) and dotted(base.func) == "_si_conversions.get" and base.args and dotted(base.args[0]) == dname) or \
-                        (isinstance(base, ast.Subscript) and dotted(base.value) == "_si_conversions" and dotted(base.slice) == dname):
-                    acc = s.target.id if isinstance(s.target, ast.Name) else None
-                    if acc and all(isinstance(r.ast.value, ast.Name) and r.ast.value.id == acc for r in h.cfg.returns()):
-                        okp = True
-    if not okp:
-        run.violate("U4", f"{h.qual}:product", h.mod, h.fn, "dimension_to_si_unit is not the product over all dimensional dependencies of _si_conversions[dim] ** exponent")
+    # the product itself, by evaluation: dimension_to_si_unit(d) for a dimension with all seven bases at distinct (also fractional, negative) exponents
+    run.ob("U4", "product")
+    from fractions import Fraction as _Fr
+    from ..pyreader import PyReader, Raised
+    from ..alg import var as _var, num as _num, op as _op
+    from ..exprtree import same_value as _same
+
+    class _SIReader(PyReader):
+
+        def global_value(self, n):
+            d_ = dotted(n)
+            if d_ and d_.startswith("units."):
+                return _var(d_)
+            if d_ == "dimsys_SI":
+                return ("dimsys", )
+            return super().global_value(n)
+
+        def hook_method(self, base, attr, args, kwargs, n):
+            if base == ("dimsys", ) and attr == "get_dimensional_dependencies" and len(args) == 1 and args[0] == "DIMENSION":
+                return dict(self.deps)
+            return NotImplemented
+
+    R_ = _SIReader(dm.tree, "dimensions.py")
+    exps = [_Fr(2), _Fr(1), _Fr(-3), _Fr(1, 2), _Fr(-1), _Fr(3), _Fr(-2, 3)]
+    R_.deps = {_var(f"units.{b}"): _num(e) for b, e in zip(BASE, exps)}
+    try:
+        table_v = R_.global_value(ast.Name(id="_si_conversions", ctx=ast.Load()))
+        got = R_.call("dimension_to_si_unit", ["DIMENSION"])
+    except Raised as r_:
+        table_v, got = None, r_
+    want = _num(1)
+    if isinstance(table_v, dict):
+        for k_, e_ in R_.deps.items():
+            want = _op("mul", want, _op("pow", table_v.get(k_, _num(1)), e_))
+    from ..alg import T as _T
+    if not (isinstance(table_v, dict) and isinstance(got, (_T, int)) and _same(got, want)):
+        run.violate("U4", f"{DIMS}:dimension_to_si_unit:product", dm, dm.tree,
+                    f"dimension_to_si_unit is not the product over all dimensional dependencies of _si_conversions[dim] ** exponent "
+                    f"(for exponents {dict(zip(BASE, map(str, exps)))} it gives {got!r})")
 
     # ---- U5
     cm = run.src.need(CEL)
